@@ -1,3 +1,5 @@
 import KitProofs.Props.C16
+import KitProofs.Props.C16Code
 import KitProofs.Census
 #census KitProofs.Props.C16
+#census KitProofs.Props.C16Code
